@@ -60,8 +60,253 @@ def coincident_plan(rng, tier):
     return plan
 
 
+# --------------------------------------------------------------------------
+# representations of the velocity gradient x triaxial flows x power-of-two rates
+# --------------------------------------------------------------------------
+# The property quantifies over ALL velocity gradients: also over what the caller's callable hands back as an array -- binary32
+# (single-precision model output), integers (a synthetic flow typed as [[0, 2, 0], ...]), Fortran order, read-only, a view of a
+# table -- and over flows that are genuinely three-dimensional (det D != 0).  A pair "history x k, times / k" is only a pair if
+# both members see THE SAME NUMBERS: the entries are small dyadic rationals (multiples of 1/8, integers for the integer
+# dtypes) and k is a POWER OF TWO, so k L and T / k are exact in binary32 and binary64 and rounding to binary32 commutes with
+# the scaling (smallest entry 2^-3 * 2^-53 = 2^-56 >> binary32's smallest normal 2^-126).  The exponents stay inside the
+# quantified range [1e-16, 1e3]: 2^-53 = 1.1e-16 ... 2^9 = 512.  In binary32 a product of two entries of D underflows for
+# |D| < 2^-63 (never here) but a product of THREE (det D, any cubic invariant) is subnormal below |D| ~ 2^-42 = 2.3e-13 1/s and
+# exactly 0 below ~ 2^-50: the geological part of the range, where a dimensional quantity evaluated in the dtype of the
+# caller's array silently loses it (seeded change C05g); plane flows (det D = 0) cannot see that.
+REP_PREFIX = "Lrep"
+REP_DTYPES = ("float32", "float64", "int64", "int32", "int8")
+REP_LAYOUTS = ("copy", "shared", "fortran", "readonly", "view")
+REP_TRIAXIAL = ("axial_ext", "axial_comp", "triaxial", "general3d", "compacting", "triaxial_time")     # det D != 0
+REP_PLANE = ("simple", "pure")                                                                         # det D == 0 (controls)
+REP_FLOWS = REP_TRIAXIAL + REP_PLANE
+REP_EXP_GEOLOGICAL = (-53, -52, -51, -50)       # 1.1e-16 .. 8.9e-16: |D|^3 is exactly 0 in binary32
+REP_EXP_SUBNORMAL = (-48, -46, -44, -43)        # 3.6e-15 .. 1.1e-13: |D|^3 is subnormal in binary32
+REP_EXP_OTHER = (-40, -33, -27, -20, -13, -7, -3, -1, 1, 3, 6, 9)
+REP_PERIODS = (0.125, 0.25)     # x at most 2 updates x |D| <= 3: total strain <= 1.5, typically 0.3.  The binary32 strain-rate scale is
+#                                 homogeneous only to binary32 rounding (see rep_tolerance); at these strains the members of 1000 steady
+#                                 binary32 pairs differed by <= 1.1e-6, at strains up to 4.5 one pair in 800 reached 1.1e-4 (an LSODA
+#                                 step-selection flip), a seeded loss of det D gives 1e-2 .. 0.4
+
+
+def _spin(rng, q, amp):
+    w = rng.integers(-amp, amp + 1, size=3) / q
+    return np.array([[0.0, -w[2], w[1]], [w[2], 0.0, -w[0]], [-w[1], w[0], 0.0]])
+
+
+def dyadic_gradient(rng, flow, integer=False):
+    """A velocity gradient whose entries are multiples of 1/8 (integers when `integer`) of magnitude <= 3; largest principal
+    strain rate between ~0.5 and ~3.  Triaxial kinds are resampled until |det D| is clearly non-zero."""
+    q = 1 if integer else 8
+    for _ in range(200):
+        L = np.zeros((3, 3))
+        p = rng.permutation(3)
+        if flow in ("axial_ext", "axial_comp"):         # one axis lengthens (shortens), the other two equally: D = a diag(2, -1, -1)
+            a = (1 if integer else int(rng.integers(3, 13))) / q * (1 if flow == "axial_ext" else -1)
+            L[p[0], p[0]], L[p[1], p[1]], L[p[2], p[2]] = 2 * a, -a, -a
+            if rng.random() < 0.5:
+                L += 2 * _spin(rng, q, 1 if integer else 6)     # rigid rotation on top: D unchanged (even entries: (L + L^T) / 2 stays on the grid)
+        elif flow in ("triaxial", "triaxial_time"):      # three different principal strain rates, trace-free, plus vorticity
+            a, b = (int(v) / q for v in rng.choice(np.arange(1, 2 * q + 1), size=2, replace=False))
+            sgn = 1 if rng.random() < 0.5 else -1
+            L[p[0], p[0]], L[p[1], p[1]], L[p[2], p[2]] = sgn * a, sgn * b, -sgn * (a + b)
+            L += 2 * _spin(rng, q, 1 if integer else 6)
+        elif flow in ("general3d", "compacting"):        # every entry non-zero in general; trace-free / net compaction
+            L = rng.integers(-2 * q, 2 * q + 1, size=(3, 3)) / q
+            if flow == "general3d":
+                L[2, 2] = -(L[0, 0] + L[1, 1])
+            else:
+                for i in range(3):
+                    L[i, i] = -abs(L[i, i])
+        elif flow == "simple":                            # plane flows: one principal strain rate is exactly 0
+            L[p[0], p[1]] = (2 if integer else int(rng.integers(4, 17))) / q
+        elif flow == "pure":
+            a = (1 if integer else int(rng.integers(3, 13))) / q
+            L[p[0], p[0]], L[p[1], p[1]] = a, -a
+        else:
+            raise ValueError(flow)
+        D = (L + L.T) / 2
+        s = float(np.abs(np.linalg.eigvalsh(D)).max())
+        if not 0.45 <= s <= 3.0 or np.abs(L).max() > 3.0:
+            continue
+        if flow in REP_TRIAXIAL and (abs(np.linalg.det(D)) < 0.02 * s ** 3 or (flow == "compacting" and np.trace(L) > -0.25)):
+            continue
+        return L
+    raise RuntimeError(f"no {flow} gradient found")
+
+
+def _represent(A, dtype):
+    """A (binary64 values) in the dtype of the representation; integer dtypes fall back to binary64 where k L is not
+    integral / out of range (the rate-1 member of such a pair is the integer array).  Never changes a value."""
+    dt = np.dtype(dtype)
+    # EXCLUDED INPUT CLASS (behaviour of the unchanged code, reported as a finding): an integer array whose entries reach HALF
+    # the range of its dtype.  update_orientations forms (L + L^T) / 2 in the dtype of the caller's array, so for an int8 array
+    # with an entry >= 64 (e.g. L = 64 diag(1, -1, 0) as int8: 64 + 64 wraps to -128) the strain rate changes sign and the
+    # pair (int8 diag(1, -1, 0) at rate 1, int8 64 diag(1, -1, 0) at rate 64) differs by O(1) (measured 1.005).  Such members
+    # are handed over as binary64 instead; integer members keep 2 |k L| <= the largest value of the dtype.
+    if dt.kind == "i" and not (np.all(A == np.round(A)) and 2 * np.abs(A).max() <= np.iinfo(dt).max):
+        dt = np.dtype("float64")
+    B = A.astype(dt)
+    if not np.array_equal(B.astype(np.float64), A):
+        raise ValueError(f"representation as {dt} changes the velocity gradient: the two members of the pair would differ")
+    return B
+
+
+def _layout(B, layout):
+    if layout in ("copy", "shared"):
+        return np.ascontiguousarray(B)
+    if layout == "fortran":
+        return np.asfortranarray(B)
+    if layout == "readonly":
+        B = B.copy()
+        B.setflags(write=False)
+        return B
+    if layout == "view":        # every second entry of one slab of a table the caller keeps
+        table = np.zeros((4, 6, 6), dtype=B.dtype)
+        table[2, ::2, ::2] = B
+        return table[2, ::2, ::2]
+    raise ValueError(layout)
+
+
+def make_represented(rng, kind, scale=1.0, period=None):
+    """(get_L, description) for lkind 'Lrep:<flow>:<dtype>:<layout>'.  scale must be a power of two."""
+    _, flow, dtype, layout = kind.split(":")
+    m, e = np.frexp(scale)
+    if m != 0.5 or not -53 <= e - 1 <= 9:
+        raise ValueError(f"rate {scale!r} is not a power of two inside [2^-53, 2^9]")
+    integer = np.dtype(dtype).kind == "i"
+    L0 = dyadic_gradient(rng, flow, integer)
+    desc = dict(kind=kind, mutated=False, detD=float(np.linalg.det((L0 + L0.T) / 2)))
+    if flow == "triaxial_time":     # smooth variation within every update; rounding to the dtype commutes with the scaling by 2^e
+        if integer:
+            raise ValueError("a smoothly varying velocity gradient has no integer representation")
+        L1 = dyadic_gradient(rng, "general3d")
+        T = float(period)
+
+        def get_varying(t, x):
+            c = np.cos(2 * np.pi * ((t * scale) / T)) ** 2
+            B = _represent(((L0 + 0.5 * L1 * c) * scale).astype(dtype).astype(np.float64), dtype)
+            return _layout(B, "fortran" if layout == "fortran" else "readonly" if layout == "readonly" else "copy")
+        return get_varying, desc
+    A = L0 * scale
+    buf = _layout(_represent(A, dtype), layout)
+    desc["given_dtype"] = str(buf.dtype)
+
+    def get_represented(t, x):
+        if not np.array_equal(np.asarray(buf, dtype=np.float64), A):
+            desc["mutated"] = True      # the library wrote into the caller's array (run_history reports it)
+        return buf.copy(order="K") if layout == "copy" else buf
+    return get_represented, desc
+
+
+def rep_tolerance(flow, dtype):
+    """Alarm threshold of a representation pair: TOL; None (measured and reported, not judged) for a binary32 array that VARIES
+    WITHIN an update.  LAPACK's single-precision symmetric eigensolver (ssterf) rescales a matrix of norm < sqrt(safmin) / eps^2
+    = 3e-5 by a factor that is not a power of two, so the binary32 strain-rate scale is homogeneous only to binary32 rounding
+    (6e-8), not exactly as in binary64.  For steady flows the two members then differ by <= 1.1e-6 (1000 pairs at the strains
+    of REP_PERIODS), but with a velocity gradient that varies within the update (an array re-rounded to binary32 at every
+    evaluation) LSODA amplifies the 6e-8 noise to its own tolerance and beyond (measured over 300 pairs: 5% above 1e-4, maximum
+    3.2e-3 at 2^-27 and 2.6e-3 at 2^-53; 107 against 110 steps; identical step sequences at 2^-1 and 2^3 where ssterf does not
+    rescale) -- on both sides of TOL, so an alarm there would say nothing about the scalings.  These pairs run in the thorough tier only; the time-varying flow is judged in its binary64 presentations."""
+    return None if (dtype == "float32" and flow == "triaxial_time") else TOL
+
+
+class represented_flows:
+    """`with represented_flows():` makes the scenario builder of the core group (minerals_trace.build -> make_L) know the
+    'Lrep:...' flow kinds of this file; everything else is passed through.  (The shared helper is not edited.)"""
+
+    def __enter__(self):
+        self._orig = orig = MT.make_L
+
+        def make_L(rng, kind, scale=1.0, period=None):
+            if isinstance(kind, str) and kind.startswith(REP_PREFIX + ":"):
+                return make_represented(rng, kind, scale, period)
+            return orig(rng, kind, scale=scale, period=period)
+        MT.make_L = make_L
+        return self
+
+    def __exit__(self, *a):
+        MT.make_L = self._orig
+
+
+def representation_plan(rng, tier):
+    """[(scenario, [exponents])].  quick: every flow once as binary32 (layouts in turn) + three integer dtypes + binary64 in
+    Fortran order on triaxial flows; thorough: every flow x every dtype x every layout.  Every scenario is run at one rate
+    of the geological end (|D|^3 = 0 in binary32), one where |D|^3 is subnormal in binary32 and at others across the range."""
+    combos = []
+    if tier == "quick":
+        off = int(rng.integers(len(REP_LAYOUTS)))
+        for i, flow in enumerate(REP_FLOWS):
+            combos.append((flow, "float32" if rep_tolerance(flow, "float32") else "float64", REP_LAYOUTS[(i + off) % len(REP_LAYOUTS)]))
+        tri = [f for f in REP_TRIAXIAL if f != "triaxial_time"]
+        for i, dt in enumerate(("int64", "int32", "int8")):
+            combos.append((tri[int(rng.integers(len(tri)))], dt, REP_LAYOUTS[(i + off + 1) % len(REP_LAYOUTS)]))
+        combos.append((REP_TRIAXIAL[int(rng.integers(len(REP_TRIAXIAL)))], "float64", "fortran"))
+    else:
+        for flow in REP_FLOWS:
+            for dt in REP_DTYPES:
+                if flow == "triaxial_time" and np.dtype(dt).kind == "i":
+                    continue
+                for lay in REP_LAYOUTS:
+                    combos.append((flow, dt, lay))
+    plan = []
+    for j, (flow, dt, lay) in enumerate(combos):
+        sc = MT.scenario(rng, regime=int((4, 6, 4, 6, 4, 0)[j % 6]), n=int(rng.integers(3, 13)),
+                         lkind=f"{REP_PREFIX}:{flow}:{dt}:{lay}", nupd=int(rng.integers(1, 3)),
+                         tkind=("random", "clustered", "nonuniform")[j % 3])
+        sc["period"] = float(REP_PERIODS[int(rng.integers(len(REP_PERIODS)))])
+        sc["params"]["gbm_mobility"] = float(rng.uniform(20, 200))      # the volume block must move too
+        n_other = 1 if tier == "quick" else 4
+        es = [int(rng.choice(REP_EXP_GEOLOGICAL)), int(rng.choice(REP_EXP_SUBNORMAL))] \
+            + [int(e) for e in rng.choice(REP_EXP_OTHER, size=n_other, replace=False)]
+        plan.append((sc, es))
+    return plan
+
+
+KEY_INT8_WRAP = "C05:update_orientations:int8-strain-rate-wraps"
+
+
+def known_int8_finding(chk):
+    """open finding (known_findings.json): a velocity gradient handed over as an int8 array whose entries reach 64 -- the strain rate
+    `(L + L.T) / 2` is formed in the caller's dtype, 64 + 64 wraps to -128 and the strain rate changes sign, so the history at rate 64
+    (time compressed by 1/64) does not store the texture of the history at rate 1.  Witness evaluated on every run; KNOWN-FINDING while it
+    reproduces and is listed as open, a violation otherwise."""
+    import warnings
+    common.use_repo_source()
+    import pydrex
+    from pydrex import minerals
+
+    def history(k):
+        m = minerals.Mineral(phase=pydrex.MineralPhase.olivine, fabric=pydrex.MineralFabric.olivine_A,
+                             regime=pydrex.DeformationRegime.matrix_dislocation, n_grains=16, seed=3)
+        L = (k * np.diag([1, -1, 0])).astype(np.int8)
+        F = m.update_orientations(pydrex.DefaultParams().as_dict(), np.eye(3), lambda t, x: L,
+                                  pathline=(0.0, 0.25 / k, lambda t: np.zeros(3)))
+        return np.asarray(m.orientations[-1], dtype=float), np.asarray(F, dtype=float)
+    try:
+        with warnings.catch_warnings():
+            warnings.simplefilter("ignore")
+            (a, _), (b, _), (c, _) = history(1), history(64), history(32)
+        d64, d32 = float(np.abs(a - b).max()), float(np.abs(a - c).max())
+    except Exception as e:  # noqa: BLE001
+        chk.cov.setdefault("known_finding_witnesses", {})[KEY_INT8_WRAP] = f"witness raised {type(e).__name__}"
+        return
+    repro = d64 > 1e-3 and d32 <= 1e-6
+    chk.cov.setdefault("known_finding_witnesses", {})[KEY_INT8_WRAP] = {"reproduces": repro, "difference_at_rate_64": d64, "difference_at_rate_32": d32}
+    if not repro:
+        return
+    status = next((str(f.get("status", "")) for f in common.load_known_findings() if f.get("key") == KEY_INT8_WRAP), None)
+    text = (f"{KEY_INT8_WRAP}: int8 velocity gradient diag(64, -64, 0) over [0, 0.25/64] stores a texture that differs by {d64:.3g} from "
+            f"int8 diag(1, -1, 0) over [0, 0.25] (rate 32: {d32:.1g}): (L + L.T)/2 is formed in int8 and 64 + 64 wraps to -128")
+    if status == "open":
+        chk.known_finding(text)
+    else:
+        chk.replay({"kind": "property-violation", "call": "Mineral.update_orientations (paired histories)", "finding": KEY_INT8_WRAP,
+                    "observed": [text], "required": "C05"})
+
+
 def run(chk):
     ok, br = proofs.prove(chk, FILES, PROP, groups=("core",), gen_modules=MT.GLUE_TIE_GEN)
+    known_int8_finding(chk)
     chk.cov["trusted_base"] = common.TRUSTED_COMMON + [MT.GLUE_TIE_TRUSTED,
         "hand-written Model_minerals.rhs (the integrand), tied by trace validation at every tested rate",
         "oracle: the strain-rate scale is the is_eigmax of D (unique, positively homogeneous -- proved); residual-checked against a closed form",
@@ -71,7 +316,11 @@ def run(chk):
                        "pathline x(k t)); flows incl. time- and position-dependent; regimes 4, 6 and the null regimes; stored textures and returned F compared "
                        "(alarm at the solver tolerance 1e-6, maximum reported); caller-owned velocity-gradient storage (same array object / view of a table / read-only / Fortran-ordered, scale != 1); enstatite in both dislocation regimes at k = 1e-16, 2^-50, 1e-15 (absolute slip threshold 1e-15); flows whose samples at start / midpoint / end of every update coincide exactly at rate 1 "
                        "(cosine periods, pulses, shear zones along the pathline, closed pathlines) at three more rates, preferring rates whose rounded partition breaks "
-                       "the coincidence; every update also trace-validated against the model; non-trivial = texture changed")
+                       "the coincidence; representations of the array the velocity-gradient callable returns (binary32 / int64 / int32 / int8 / binary64; fresh copy, same object, "
+                       "Fortran order, read-only, view of a table) x triaxial flows with det D != 0 (axial extension / compression, three distinct principal rates, general "
+                       "trace-free, compacting, varying in time) and plane controls, entries dyadic and rates powers of two 2^-53 .. 2^9 so that both members see the same "
+                       "numbers in every dtype, always one rate where |D|^3 is 0 and one where it is subnormal in binary32 (binary32 members judged by the property oracle "
+                       "only); every update also trace-validated against the model; non-trivial = texture changed")
     bad, mon = [], []
     rng = np.random.default_rng(chk.seed)
     if br.drivers.get("core", 1) is None:
@@ -175,6 +424,50 @@ def run(chk):
                     worst = max(worst, d)
                     if msg or d > TOL:
                         mon.append((sc, k, msg or f"textures / deformation gradient at rate k = {k:g} differ from rate 1 by {d:.3e} (> {TOL:g})"))
+            # representations of the array the velocity-gradient callable returns (binary32 / integer / binary64; fresh copy, same
+            # object, Fortran order, read-only, view of a table) x triaxial and plane flows, at power-of-two rates 2^-53 .. 2^9 (exact
+            # pairs in every dtype); own PRNG stream.  Members given as binary64 / integers are trace-validated against the model;
+            # binary32 members are judged by the property oracle only (the extracted model computes in binary64)
+            rp = chk.cov.setdefault("L_representation_pairs", {})
+            rf = chk.cov.setdefault("L_representation_flow_pairs", {})
+            rk = chk.cov.setdefault("L_representation_rate_histogram", {})
+            rz = chk.cov.setdefault("L_representation_binary32_cube_underflow_pairs", {"triaxial (det D != 0)": 0, "plane (det D == 0)": 0})
+            with represented_flows():
+                for sc, es in representation_plan(np.random.default_rng([chk.seed, 0xC05F32]), chk.tier):
+                    _, flow, dt, lay = sc["lkind"].split(":")
+                    h1 = c01.run_history(rec, dict(sc, rate=1.0))
+                    if dt != "float32":
+                        c01.validate_traces(chk, h1, bad)
+                    if h1["fails"]:
+                        mon += [(sc, 1.0, m) for _, m in h1["fails"]]
+                        continue
+                    for e in es:
+                        k = 2.0 ** e
+                        hk = c01.run_history(rec, dict(sc, rate=k))
+                        if dt != "float32":
+                            c01.validate_traces(chk, hk, bad)
+                        hist[f"2^{e}"] = hist.get(f"2^{e}", 0) + 1
+                        rk[f"2^{e}"] = rk.get(f"2^{e}", 0) + 1
+                        key = f"{dt}:{lay}" + ("" if dt == hk["desc"].get("given_dtype", dt) else f" (rate-k member as {hk['desc']['given_dtype']})")
+                        rp[key] = rp.get(key, 0) + 1
+                        rf[flow] = rf.get(flow, 0) + 1
+                        if dt == "float32" and e <= -43:
+                            rz["triaxial (det D != 0)" if flow in REP_TRIAXIAL else "plane (det D == 0)"] += 1
+                        if hk["fails"]:
+                            mon += [(sc, k, m) for _, m in hk["fails"]]
+                            continue
+                        d, msg = compare(h1, hk)
+                        tol = rep_tolerance(flow, dt)
+                        if tol is None:     # binary32 array varying within the update: measured, not judged (see rep_tolerance)
+                            chk.cov["L_representation_binary32_time_varying_measured_max"] = max(
+                                chk.cov.get("L_representation_binary32_time_varying_measured_max", 0.0), d)
+                            if not msg:
+                                continue
+                        worst = max(worst, d)
+                        chk.cov["L_representation_max_rate_dependence"] = max(chk.cov.get("L_representation_max_rate_dependence", 0.0), d)
+                        if msg or d > tol:
+                            mon.append((sc, k, msg or f"textures / deformation gradient at rate k = 2^{e} differ from rate 1 by {d:.3e} (> {tol:g}); "
+                                                       f"velocity gradient given as {dt} ({lay}), flow {flow}, det D = {h1['desc']['detD']:g} at rate 1"))
             # block-boundary grain counts: one paired run each (k = 1e-8), trace-validated
             for sc in MT.block_scenarios(np.random.default_rng([chk.seed, 0xB10C]), chk.tier, regimes=(4, 6),
                                          sizes=(64, 128, 129, 1024) if chk.tier == "quick" else None):
@@ -213,9 +506,12 @@ def replay(d):
         return 1
     sc = d["scenario"]
     sc["pair"] = tuple(sc["pair"])
-    with MT.Recorder() as rec:
+    with MT.Recorder() as rec, represented_flows():
         h1 = c01.run_history(rec, dict(sc, rate=1.0))
         hk = c01.run_history(rec, dict(sc, rate=float(d["k"])))
     dd, msg = compare(h1, hk)
     print("difference", dd, msg)
-    return 1 if (msg or dd > TOL or h1["fails"] or hk["fails"]) else 0
+    tol = TOL
+    if str(sc.get("lkind", "")).startswith(REP_PREFIX + ":"):
+        tol = rep_tolerance(*sc["lkind"].split(":")[1:3]) or np.inf
+    return 1 if (msg or dd > tol or h1["fails"] or hk["fails"]) else 0
